@@ -1,5 +1,5 @@
 (* C03 - No silent corruption: 'complete' always means the sender's exact bytes. *)
-From FluteV Require Import Model.ObjRecv Model.Recv Spec.RecvSpec Proofs.RecvProofs.
+From FluteV Require Import Model.ObjRecv Model.Recv Spec.RecvSpec Proofs.RecvProofs Proofs.C09Full.
 Open Scope N_scope.
 
 (* Full statement (kept visible): for every list of packets drawn from the genuine packets of a
@@ -19,6 +19,15 @@ Definition C03_complete_implies_exact_full : Prop :=
 Theorem C03_never_complete_and_failed : forall content call, c09_step content PhDone call = None.
 Proof. exact nothing_after_terminal. Qed.
 Print Assumptions C03_never_complete_and_failed.
+
+(* never both, at history level: whatever the receiver is fed and whatever the builder and the
+   writers answer, no writer receives both a complete and an error/interrupted call (second
+   conjunct of P_C03_writer); corollary of the C09 history theorem *)
+Theorem C03_never_complete_and_failed_history : forall E parse_fdt cfg evs,
+  let '(_, _, c) := recv_run E parse_fdt cfg recv0 evs ctx0 in
+  forall w, completed (calls_of w (c_log c)) && failed (calls_of w (c_log c)) = false.
+Proof. exact never_complete_and_failed_history. Qed.
+Print Assumptions C03_never_complete_and_failed_history.
 
 Theorem C03_closed_object_ignores_packets : forall E p o c,
   r_state o <> Receiving -> or_push E p o c = (o, c).
